@@ -32,13 +32,21 @@ Sel == /\ l <= Len(Rec) /\ Rec[l].ev = "sel" /\ l' = l + 1
        /\ LET e == Rec[l]  s == Select(e.model, e.state, e.label) IN
             /\ s = <<e.tree, e.pdf>>
             /\ Tab.models[e.model].pdfs[s[1] - 1][s[2]] = e.words
+\* utterance level (Models): the Gaussian handed to synthesis for one label of an utterance is what the trees select for
+\* that label alone.  The duration model has one tree (state tag 2) whose PDF holds the means, then the variances, of all states.
+USel == /\ l <= Len(Rec) /\ Rec[l].ev = "usel" /\ l' = l + 1
+        /\ LET e == Rec[l] IN
+             IF e.model = "dur"
+             THEN LET s == Select("dur", 2, e.label)  w == Tab.models["dur"].pdfs[s[1] - 1][s[2]]  ns == Len(w) \div 2
+                  IN e.words = << w[e.state - 1], w[ns + e.state - 1] >>
+             ELSE LET s == Select(e.model, e.state, e.label) IN Tab.models[e.model].pdfs[s[1] - 1][s[2]] = e.words
 Meta == /\ l <= Len(Rec) /\ Rec[l].ev = "meta" /\ l' = l + 1
         /\ Tab.global[Rec[l].key] = Rec[l].value
 SMeta == /\ l <= Len(Rec) /\ Rec[l].ev = "smeta" /\ l' = l + 1
          /\ Tab.stream[Rec[l].key] = Rec[l].value
 Win == /\ l <= Len(Rec) /\ Rec[l].ev = "win" /\ l' = l + 1
        /\ Tab.windows[Rec[l].stream][Rec[l].index] = Rec[l].toks
-Next == Sel \/ Meta \/ SMeta \/ Win
+Next == Sel \/ USel \/ Meta \/ SMeta \/ Win
 Spec == Init /\ [][Next]_l
 Accepted == IF TLCGet("stats").diameter - 1 = Len(Rec) THEN TRUE
             ELSE Print(<<"REJECT at", TLCGet("stats").diameter>>, FALSE)
